@@ -252,6 +252,17 @@ def check(pid, tier, replay=None):
         raise Broken("store random harness failed:\n" + out[-3000:])
     rsumm = json.load(open(os.path.join(rdir, "summary.json")))
     traces.append(os.path.join(rdir, "traces.ndjson"))
+    if pid == "C04":
+        # the persistent block list defers the release of popped blocks until a state file that no
+        # longer lists them has been written: crash-free persistent runs driven to quiescence
+        pdir = os.path.join(work, "persist")
+        os.makedirs(pdir)
+        rc, out = vlib.run_harness(binary, "TestCrash", {"STORE_OUT": pdir, "VERIF_SEED": sd, "CRASH_MODE": "live",
+                                                          "CRASH_WORKLOADS": 80 if quick else 1500, "CRASH_OPS_MIN": 10}, timeout=3000)
+        if rc != 0:
+            raise Broken("persistent live harness failed:\n" + out[-3000:])
+        traces.append(os.path.join(pdir, "traces.ndjson"))
+        cov["persistent_runs"] = json.load(open(os.path.join(pdir, "summary.json")))
     n_traces = n_events = vstates = 0
     rejects = []
     for tp in traces:
